@@ -34,10 +34,13 @@
 (*                           upper-triangle of the matrix only             *)
 (*   "ignores_rng"         - draws taken from the global stream although a *)
 (*                           generator was given                           *)
+(*   "stale_after_assign"  - (facet 4, Reassign) an assignment of a public *)
+(*                           parameter keeps what the object derived from  *)
+(*                           the old parameters                            *)
 (***************************************************************************)
 EXTENDS DiffOps
 
-CONSTANTS Facet,        \* "cases" (configuration enumeration) | "stream" (behaviours)
+CONSTANTS Facet,        \* "cases" (configuration enumeration) | "stream" (behaviours) | "reassign" (facet 4)
           Dev,          \* "none" or a named deviation
           MaxDim,       \* Gaussian lattice: dimensions 1..MaxDim (<= 3)
           PinvMax,      \* largest 1-D node count with the rational pseudo-inverse design check (orders 0, 1)
@@ -127,7 +130,10 @@ GaussValid(k) ==
     /\ (k.shape # "scalar" => k.dim >= 2)
     /\ (k.wrap = "lognormal" => k.form = "cov" /\ k.shape \in {"scalar", "vector", "diag", "dense"})
 
-GaussMean(k) == IF k.mform = "scalar" THEN [i \in 1..k.dim |-> MuV[2]] ELSE Pre(MuV, k.dim)
+\* (configurations of the Reassign facet carry the optional field mu = 2: the second mean)
+MuV2 == <<-3, 1, 2>>
+MuOf(k) == IF "mu" \in DOMAIN k /\ k.mu = 2 THEN MuV2 ELSE MuV
+GaussMean(k) == IF k.mform = "scalar" THEN [i \in 1..k.dim |-> MuOf(k)[2]] ELSE Pre(MuOf(k), k.dim)
 
 \* the affine law on the specification:  L L^T P = I,  P symmetric, P independent of the form
 AffineLawHolds(L, P) ==
@@ -177,7 +183,8 @@ GmrfValid(k) ==
 OpCfg(k) == IF k.order = 0 THEN [pd |-> k.pd, n |-> k.n, bc |-> "none", order |-> 1, wm |-> 1]
             ELSE [pd |-> k.pd, n |-> k.n, bc |-> k.bc, order |-> k.order, wm |-> k.wm]
 GDim(k)  == IF k.pd = 1 THEN k.n ELSE k.n * k.n
-GMean(k) == [i \in 1..GDim(k) |-> ((i * i) % 5) - 2]
+GMean(k) == IF "mu" \in DOMAIN k /\ k.mu = 2 THEN [i \in 1..GDim(k) |-> ((3 * i) % 7) - 3]
+            ELSE [i \in 1..GDim(k) |-> ((i * i) % 5) - 2]
 
 \* pseudo-inverse of a symmetric PSD rational matrix whose null space is spanned by the rows of B
 \* (every intermediate is forced once with F and bound by LET: TLC would otherwise re-evaluate nested arguments)
@@ -298,7 +305,7 @@ WLat(f, l) ==
       [] f = "Laplace" /\ l = 1            -> << <<R(1), R(-2), Zero>>,        <<Half, R(2), R(4)>> >>
       [] f = "Laplace" /\ l = 2            -> << <<R(-4), Q(3, 2), R(2)>>,     <<R(3), Q(1, 4), One>> >>
       [] f = "Uniform" /\ l = 1            -> << <<R(-2), Zero, Half>>,        <<R(3), Q(1, 4), R(4)>> >>
-      [] f = "Uniform" /\ l = 2            -> << <<R(-1), R(-5), Zero>>,       <<One, R(-1), R(10)>> >>
+      [] f = "Uniform" /\ l = 2            -> << <<R(-1), R(-5), Zero>>,       <<One, R(2), R(10)>> >>      \* (low of either lattice < high of either)
       [] f = "Beta" /\ l = 1               -> << <<R(2), Half, R(3)>>,         <<R(3), R(4), Half>> >>
       [] f = "Beta" /\ l = 2               -> << <<Q(3, 2), R(5), One>>,       <<Half, R(2), R(6)>> >>
       [] f = "InverseGamma" /\ l = 1       -> << <<R(3), Q(5, 2), R(2)>>,      <<Zero, R(-1), R(2)>>,  <<Half, R(2), One>> >>
@@ -317,7 +324,9 @@ WiringValid(k) ==
 
 \* how parameter q (position in WNames) is passed and what component i of it is
 PassedAs(k, q) == IF k.pform = "scalar" \/ (k.pform = "mixed" /\ q > 1) THEN "scalar" ELSE "vector"
-Theta(k, q)    == LET v == WLat(k.family, k.lat)[q]
+\* (configurations of the Reassign facet carry the optional field lats: the lattice of every single parameter)
+LatOf(k, q)    == IF "lats" \in DOMAIN k THEN k.lats[q] ELSE k.lat
+Theta(k, q)    == LET v == WLat(k.family, LatOf(k, q))[q]
                   IN F([i \in 1..k.dim |-> IF PassedAs(k, q) = "scalar" THEN v[1] ELSE v[i]])
 
 \* scripted base values: entry (j, i) of the (N x dim) base array (draw j, component i); all distinct
@@ -367,34 +376,37 @@ CaseConfigs ==
     {k \in GaussConfigs : GaussValid(k)} \cup BigConfigs \cup {k \in GmrfConfigs : GmrfValid(k)}
         \cup {k \in WiringConfigs : WiringValid(k)}
 
-EmitGauss(k) ==
+GaussRec(k) ==
     IF IsMatShape(k.shape)
     THEN LET G == F(GenMat(k)) X == F(DataMat(k.form, G)) P == F(PrecOfMat(k.form, X))
-         IN PrintT("@@CASE " \o ToJson([kind |-> "gauss", wrap |-> k.wrap, form |-> k.form, shape |-> k.shape, tri |-> k.tri,
+         IN [kind |-> "gauss", wrap |-> k.wrap, form |-> k.form, shape |-> k.shape, tri |-> k.tri,
                 dim |-> k.dim, scaled |-> k.scaled, mform |-> k.mform, mean |-> GaussMean(k), data |-> X, prec |-> P,
-                exact |-> (k.form = "sqrtprec"), L |-> LOfMat(k.form, X, G)]) \o " @@END")
+                exact |-> (k.form = "sqrtprec"), L |-> LOfMat(k.form, X, G)]
     ELSE LET g == GenDiag(k) x == DataDiag(k.form, g)
-         IN PrintT("@@CASE " \o ToJson([kind |-> "gauss", wrap |-> k.wrap, form |-> k.form, shape |-> k.shape, tri |-> k.tri,
+         IN [kind |-> "gauss", wrap |-> k.wrap, form |-> k.form, shape |-> k.shape, tri |-> k.tri,
                 dim |-> k.dim, scaled |-> k.scaled, mform |-> k.mform, mean |-> GaussMean(k), data |-> x,
-                prec |-> MDiag(PrecOfDiag(k.form, x)), exact |-> (k.form = "sqrtprec"), L |-> MDiag(LOfDiag(k.form, x, g))]) \o " @@END")
+                prec |-> MDiag(PrecOfDiag(k.form, x)), exact |-> (k.form = "sqrtprec"), L |-> MDiag(LOfDiag(k.form, x, g))]
+EmitGauss(k) == PrintT("@@CASE " \o ToJson(GaussRec(k)) \o " @@END")
 
 EmitBig(k) ==
     LET g == BigGen(k) x == DataDiag(k.form, g)
     IN PrintT("@@CASE " \o ToJson([kind |-> "bigdiag", form |-> k.form, shape |-> k.shape, dim |-> k.dim, data |-> x,
             precdiag |-> PrecOfDiag(k.form, x), ldiag |-> F([i \in 1..k.dim |-> RInv(g[i])])]) \o " @@END")
 
-EmitGmrf(k) ==
+GmrfRec(k) ==
     LET D == DOp(OpCfg(k)) P0 == IMM(IT(D), D)
         B == IF k.order = 0 THEN <<>> ELSE NullBasis(OpCfg(k))
-    IN PrintT("@@CASE " \o ToJson([kind |-> "gmrf", pd |-> k.pd, n |-> k.n, bc |-> k.bc, order |-> k.order, wm |-> k.wm,
+    IN [kind |-> "gmrf", pd |-> k.pd, n |-> k.n, bc |-> k.bc, order |-> k.order, wm |-> k.wm,
             sd |-> k.sd, delta |-> k.sd * k.sd, dim |-> GDim(k), mean |-> GMean(k), D |-> D, P0 |-> P0,
-            rank |-> GDim(k) - Len(B), nullbasis |-> B, design |-> Design(k)]) \o " @@END")
+            rank |-> GDim(k) - Len(B), nullbasis |-> B, design |-> Design(k)]
+EmitGmrf(k) == PrintT("@@CASE " \o ToJson(GmrfRec(k)) \o " @@END")
 
-EmitWiring(k) ==
-    PrintT("@@CASE " \o ToJson([kind |-> "wiring", family |-> k.family, dim |-> k.dim, pform |-> k.pform, N |-> k.N, lat |-> k.lat,
+WiringRec(k) ==
+    [kind |-> "wiring", family |-> k.family, dim |-> k.dim, pform |-> k.pform, N |-> k.N, lat |-> k.lat,
             params |-> [q \in 1..Len(WNames(k.family)) |-> [name |-> WNames(k.family)[q], passed |-> PassedAs(k, q), val |-> Theta(k, q)]],
             gen |-> BaseGen(k.family), args |-> BaseArgs(k), rows |-> k.N, cols |-> k.dim,
-            Z |-> BaseZ(k), result |-> WResult(k)]) \o " @@END")
+            Z |-> BaseZ(k), result |-> WResult(k)]
+EmitWiring(k) == PrintT("@@CASE " \o ToJson(WiringRec(k)) \o " @@END")
 
 EmitCase ==
     (Emit /\ Facet = "cases") =>
@@ -472,11 +484,100 @@ EmitBehaviour ==
     (Emit /\ Facet = "stream" /\ Len(hist) = MaxSteps) => PrintT("@@CASE " \o ToJson([kind |-> "behaviour", steps |-> hist]) \o " @@END")
 
 \* ===========================================================================
+\*  Facet 4 : Reassign - ONE distribution object, parameters replaced through the public attributes, then sampled
+\* ===========================================================================
+\* A draw is a function of the CURRENT parameters of the object (and of the generator): whatever an object derives from its
+\* parameters for sampling (frozen base generators, factorisations, square roots, eigenvalues ...) must not outlive them.
+\*   state  c = a configuration k of facets 1a / 1b / 2  @@  [re |-> [done, cached]]
+\*            done    assignment units carried out so far, in order
+\*                      wiring : unit q = the q-th parameter of the family  (second value: the other lattice of WLat)
+\*                      gauss  : unit 1 = mean (second value MuV2), unit 2 = the matrix-valued input of the form (second value: the
+\*                               other scaling and the next triangle - upper -> lower -> full -> upper - of the generator)
+\*                      gmrf   : unit 1 = mean, unit 2 = precision (second value: the other delta)
+\*            cached  <<>> or <<set of units that were assigned when the object last derived what it keeps>>
+\*   ReSampEvaluate / ReSampAssign(u): as in Families.tla; orders = cyclic rotations of the units.
+\* ReSampFresh: in every reachable state the base request / result (wiring) resp. mean and precision (affine law) the object
+\* samples with are those of a freshly built object with the current parameters.  Named deviation Dev = "stale_after_assign"
+\* (an assignment keeps what was derived before) must be refuted.  Every terminal state emits the start configuration and the
+\* complete expected case after every assignment of the order.
+ReSampUnits(k) ==
+    CASE k.kind = "wiring" -> [q \in 1..Len(WNames(k.family)) |-> <<WNames(k.family)[q]>>]
+      [] k.kind = "gauss"  -> << <<"mean">>, <<IF k.wrap = "lognormal" THEN "cov" ELSE k.form>> >>
+      [] k.kind = "gmrf"   -> << <<"mean">>, <<"prec">> >>
+NextTri(t) == CASE t = "upper" -> "lower" [] t = "lower" -> "full" [] t = "full" -> "upper" [] OTHER -> t
+\* the configuration after the units of S have been assigned
+ReSampMix(k, S) ==
+    CASE k.kind = "wiring" ->
+           [kind |-> "wiring", family |-> k.family, dim |-> k.dim, pform |-> k.pform, N |-> k.N, lat |-> k.lat,
+            lats |-> [q \in 1..Len(WNames(k.family)) |-> IF q \in S THEN 3 - k.lat ELSE k.lat]]
+      [] k.kind = "gauss" ->
+           [kind |-> "gauss", wrap |-> k.wrap, form |-> k.form, shape |-> k.shape, dim |-> k.dim, mform |-> k.mform,
+            tri |-> IF 2 \in S THEN NextTri(k.tri) ELSE k.tri, scaled |-> IF 2 \in S THEN ~k.scaled ELSE k.scaled,
+            mu |-> IF 1 \in S THEN 2 ELSE 1]
+      [] k.kind = "gmrf" ->
+           [kind |-> "gmrf", pd |-> k.pd, n |-> k.n, bc |-> k.bc, order |-> k.order, wm |-> k.wm,
+            sd |-> IF 2 \in S THEN 3 - k.sd ELSE k.sd, mu |-> IF 1 \in S THEN 2 ELSE 1]
+ReSampRec(k) == CASE k.kind = "wiring" -> WiringRec(k) [] k.kind = "gauss" -> GaussRec(k) [] k.kind = "gmrf" -> GmrfRec(k)
+\* what a draw depends on
+ReSampObs(k) ==
+    CASE k.kind = "wiring" -> [args |-> BaseArgs(k), result |-> WResult(k)]
+      [] k.kind = "gauss"  -> LET r == GaussRec(k) IN [mean |-> r.mean, prec |-> r.prec]
+      [] k.kind = "gmrf"   -> [mean |-> GMean(k), delta |-> k.sd * k.sd]
+ReSampBase(s) == [f \in (DOMAIN s) \ {"re"} |-> s[f]]
+ReSampStart ==
+    {k \in GaussConfigs : GaussValid(k) /\ ~k.scaled}
+      \cup {k \in GmrfConfigs : GmrfValid(k) /\ k.sd = 1 /\ GDim(k) <= 4}
+      \cup {k \in WiringConfigs : WiringValid(k) /\ k.N = 2}
+ReSampDoneSet(s) == {s.re.done[j] : j \in 1..Len(s.re.done)}
+ReSampAfter(s, n) == ReSampMix(ReSampBase(s), {s.re.done[j] : j \in 1..n})
+ReSampCur(s) == ReSampAfter(s, Len(s.re.done))
+ReSampMay(s, u) ==
+    /\ u \notin ReSampDoneSet(s)
+    /\ (IF s.re.done = <<>> THEN TRUE ELSE u = (s.re.done[Len(s.re.done)] % Len(ReSampUnits(s))) + 1)
+ReSampEvaluate ==
+    /\ c.re.cached = <<>>
+    /\ c' = [c EXCEPT !.re.cached = <<ReSampDoneSet(c)>>]
+ReSampAssign(u) ==
+    /\ ReSampMay(c, u)
+    /\ c' = [c EXCEPT !.re.done = Append(@, u), !.re.cached = IF Dev = "stale_after_assign" THEN @ ELSE <<>>]
+ReSampNext ==
+    /\ (ReSampEvaluate \/ \E u \in 1..Len(ReSampUnits(c)) : ReSampAssign(u))
+    /\ UNCHANGED <<gpos, lpos, hist>>
+ReSampFresh ==
+    (Facet = "reassign" /\ c.re.cached # <<>> /\ c.re.cached[1] # ReSampDoneSet(c)) =>
+        ReSampObs(ReSampMix(ReSampBase(c), c.re.cached[1])) = ReSampObs(ReSampCur(c))
+\* non-vacuity: every single unit changes what a draw depends on
+ReSampDiffers ==
+    (Facet = "reassign" /\ Len(c.re.done) = 1) => ReSampObs(ReSampCur(c)) # ReSampObs(ReSampMix(ReSampBase(c), {}))
+\* the mixed configurations are configurations of the facets (their laws hold: checked by the invariants of facet 1 / 2 on c)
+EmitReassign ==
+    (Emit /\ Facet = "reassign" /\ Len(c.re.done) = Len(ReSampUnits(c)) /\ c.re.cached = <<>>) =>
+        PrintT("@@CASE " \o ToJson(
+            [kind |-> "reassign", sub |-> c.kind, order |-> c.re.done,
+             from |-> ReSampRec(ReSampMix(ReSampBase(c), {})),
+             trail |-> [n \in 1..Len(c.re.done) |->
+                          [unit |-> c.re.done[n], assign |-> ReSampUnits(c)[c.re.done[n]], expect |-> ReSampRec(ReSampAfter(c, n))]]]) \o " @@END")
+\* the laws of facets 1 and 2 on the CURRENT configuration of a Reassign state (c itself is the start configuration)
+ReSampLaws ==
+    Facet = "reassign" =>
+        LET k == ReSampCur(c)
+        IN CASE k.kind = "wiring" -> (k.family = "Uniform" => \A i \in 1..k.dim : RLt(Theta(k, 1)[i], Theta(k, 2)[i]))
+                                       /\ (k.family \in {"Normal", "Laplace", "Cauchy", "InverseGamma"} =>
+                                              \A i \in 1..k.dim : RLt(Zero, BaseArgs(k)[Len(BaseArgs(k))].val[i]))
+             [] k.kind = "gauss" /\ IsMatShape(k.shape) ->
+                   LET G == F(GenMat(k)) X == F(DataMat(k.form, G)) P == F(PrecOfMat(k.form, X)) L == F(LOfMat(k.form, X, G))
+                   IN P = MM(MT(G), G) /\ MSym(P) /\ AffineLawHolds(L, P)
+             [] OTHER -> TRUE
+
+\* ===========================================================================
 SInit ==
     IF Facet = "cases"
     THEN /\ c \in CaseConfigs
          /\ gpos = <<>> /\ lpos = [r \in StreamRngs |-> <<>>] /\ hist = <<>>
+    ELSE IF Facet = "reassign"
+    THEN /\ c \in {k @@ [re |-> [done |-> <<>>, cached |-> <<>>]] : k \in ReSampStart}
+         /\ gpos = <<>> /\ lpos = [r \in StreamRngs |-> <<>>] /\ hist = <<>>
     ELSE StreamInit
-SNext == IF Facet = "cases" THEN UNCHANGED svars ELSE StreamNext
+SNext == IF Facet = "cases" THEN UNCHANGED svars ELSE IF Facet = "reassign" THEN ReSampNext ELSE StreamNext
 SSpec == SInit /\ [][SNext]_svars
 =============================================================================
